@@ -41,6 +41,23 @@ def run_property(prop: str, tier: str) -> int:
         return 2
     checker.run(rules)
     obs = [ob for ob in checker.obs]
+    # precision escalation: the engine merges path classes beyond fixed bounds, which can lose a fact that a guard
+    # needs. Before anything is REPORTED, the property is decided again with much larger bounds (what the thorough
+    # tier's stability run uses); that run's verdict is the one that counts. Costs time only when something fails.
+    if not os.environ.get("NGOSA_ESCALATED") and not os.environ.get("NGOSA_DUMP"):
+        from .core import known_match, load_known
+
+        known = load_known()
+        live = {f.short for f in checker.prg.funcs.values()}
+        if any(not ob.ok and known_match(ob, known, live) is None for ob in obs) or checker.errors:
+            import subprocess
+
+            env = dict(os.environ)
+            env.update({"NGOSA_ESCALATED": "1", "NGOSA_LOOP_ROUNDS": "6", "NGOSA_MAX_STATES": "160", "NGOSA_GROUP_STATES": "160"})
+            res = subprocess.run([sys.executable, "-m", "ngosa.cli", prop, "--tier", tier], cwd=os.path.dirname(os.path.dirname(os.path.abspath(__file__))), env=env, capture_output=True, text=True, check=False)
+            sys.stdout.write(res.stdout)
+            sys.stderr.write(res.stderr)
+            return res.returncode
     extra: dict[str, object] = {"rules_run": [r.rid for r in rules]}
     if tier == "thorough" and not os.environ.get("NGOSA_DUMP"):
         from . import selftest
